@@ -16,7 +16,7 @@ def sh(cmd, cwd, **kw):
 def main():
     ap = argparse.ArgumentParser()
     ap.add_argument("wt"); ap.add_argument("prop")
-    ap.add_argument("--props", default=""); ap.add_argument("--tier", default="quick")
+    ap.add_argument("--props", default=""); ap.add_argument("--tier", default="quick"); ap.add_argument("--tag", default="")
     a = ap.parse_args()
     props = [p for p in (a.props or a.prop).split(",") if p]
     sd = os.path.join(a.wt, "_seeds")
@@ -48,13 +48,15 @@ def main():
         line = [l for l in res.stdout.splitlines() if "=>" in l]
         meta["checks_result"] = line[-1] if line else (res.stdout + res.stderr)[-400:]
         meta["caught"] = "CAUGHT" in meta["checks_result"]
-        out = os.path.join(HERE, "seeded", "%s-%s" % (a.prop, name))
+        out = os.path.join(HERE, "seeded", "%s-%s%s" % (a.prop, (a.tag + "-") if a.tag else "", name))
         os.makedirs(out, exist_ok=True)
         for f in ("patch.diff", "demo.py", "notes.md"):
             if os.path.exists(os.path.join(d, f)):
                 shutil.copy(os.path.join(d, f), out)
         if os.path.exists(os.path.join(d, "notes.md")):
             meta["needs"] = open(os.path.join(d, "notes.md")).read()[:1500]
+        json.dump(meta, open(os.path.join(out, "meta.json"), "w"), indent=1)
+        meta["round"] = a.tag or "r1"
         json.dump(meta, open(os.path.join(out, "meta.json"), "w"), indent=1)
         print("%s-%s confirmed=%s suite=%s demo(with/without)=%s/%s :: %s" % (a.prop, name, ok, meta["suite_with_patch"][:30], meta["demo_with_patch_rc"], meta["demo_without_patch_rc"], meta["checks_result"][-120:]))
 
